@@ -16,6 +16,18 @@ SEq(x, y)  == SCanon(x) = SCanon(y)
 SIsRoot(x, sg, q) == SCanon(x) = <<(IF q = Zero THEN 0 ELSE sg), q>>
 \* product of two scalars when it is rational (both rational, or the radicands multiply to a square)
 BothRat(x, y) == Len(x) = 2 /\ Len(y) = 2
-SProdOK(x, y) == BothRat(x, y) \/ RIsSquare(RMul(SSq(x), SSq(y)))
-SProd(x, y)   == IF BothRat(x, y) THEN RMul(x, y) ELSE RMul(R(SSign(x) * SSign(y)), RSqrt(RMul(SSq(x), SSq(y))))
+\* sqrt(a/b) * sqrt(c/d) without forming the products a*c, b*d (32-bit budget): cancel across, then note that
+\* a'c' with a', c' coprime after removing g = gcd is a square iff a' and c' both are.
+SurdParts(x, y) ==
+  LET p == SSq(x)  q == SSq(y)
+      x1 == Gcd(p[1], q[2])  x2 == Gcd(q[1], p[2])
+      a == p[1] \div (IF x1 = 0 THEN 1 ELSE x1)  d == q[2] \div (IF x1 = 0 THEN 1 ELSE x1)
+      c == q[1] \div (IF x2 = 0 THEN 1 ELSE x2)  b == p[2] \div (IF x2 = 0 THEN 1 ELSE x2)
+      gn == Gcd(a, c)  gd == Gcd(b, d)
+      g1 == IF gn = 0 THEN 1 ELSE gn  g2 == IF gd = 0 THEN 1 ELSE gd
+  IN  <<a \div g1, c \div g1, g1, b \div g2, d \div g2, g2>>
+SProdOK(x, y) == BothRat(x, y) \/ LET s == SurdParts(x, y) IN IsSquare(s[1]) /\ IsSquare(s[2]) /\ IsSquare(s[4]) /\ IsSquare(s[5])
+SProd(x, y)   == IF BothRat(x, y) THEN RMul(x, y)
+                 ELSE LET s == SurdParts(x, y) IN
+                      Norm(SSign(x) * SSign(y) * s[3] * ISqrt(s[1]) * ISqrt(s[2]), s[6] * ISqrt(s[4]) * ISqrt(s[5]))
 =============================================================================
